@@ -6,7 +6,8 @@
 //!  * `conn`: `HttpService::build().h1(recording service)` over a scripted in-memory socket
 //!    (`crate::c01_sock`), polled by a wake-driven loop until it completes or goes quiescent.
 //!
-//! Case line:  `<codec|conn> s=<seg-spec> [e=<0|1>] [x=<fnv64 of expected output>] [cls=<label>] <stream-hex>`
+//! Case line:  `<codec|conn> s=<seg-spec> [e=<0|1>] [wp=<0|1>] [x=<fnv64 of expected output>] [cls=<label>] <stream-hex>`
+//!             (`e=1`: the peer closes after the last segment; `wp=1`: every other `poll_write` is `Pending`)
 //! seg-spec:   `w` whole · `b1` one byte per read · `a2` family of *all* 2-cuts (output = whole
 //!             result + `A2:ok` / `A2:<first differing offset>`) · `c<o1>.<o2>…` explicit cut offsets
 //!             (a repeated offset is an empty read).
@@ -114,6 +115,8 @@ pub enum End {
     RejectIo,
     TailHead(usize),
     TailBody,
+    /// the decode loop kept yielding messages without consuming input
+    Livelock,
 }
 
 impl End {
@@ -123,6 +126,7 @@ impl End {
             End::RejectIo => "RIO".into(),
             End::TailHead(n) => format!("Th{}", n),
             End::TailBody => "Tb".into(),
+            End::Livelock => "LIVELOCK".into(),
         }
     }
     fn is_reject(&self) -> bool {
@@ -210,7 +214,14 @@ fn run_codec(segs: &[Vec<u8>]) -> (Vec<Msg>, End) {
     let mut msgs: Vec<Msg> = Vec::new();
     for seg in segs {
         buf.extend_from_slice(seg);
+        // every message consumes a byte or empties the payload slot: more than this many
+        // iterations for one read means the decoder yields without progress
+        let mut budget = 2 * buf.len() + 16;
         loop {
+            if budget == 0 {
+                return (msgs, End::Livelock);
+            }
+            budget -= 1;
             match codec.decode(&mut buf) {
                 Ok(Some(h1::Message::Item(req))) => {
                     let kind = match codec.message_type() {
@@ -325,7 +336,7 @@ fn find(h: &[u8], n: &[u8]) -> Option<usize> {
     (0..=h.len() - n.len()).find(|&i| &h[i..i + n.len()] == n)
 }
 
-fn run_conn(segs: &[Vec<u8>], eof: bool) -> ConnRun {
+fn run_conn(segs: &[Vec<u8>], eof: bool, wp: bool) -> ConnRun {
     block_on_system(async move {
         let calls: Rc<RefCell<Vec<Msg>>> = Rc::new(RefCell::new(Vec::new()));
         let calls2 = calls.clone();
@@ -375,7 +386,7 @@ fn run_conn(segs: &[Vec<u8>], eof: bool) -> ConnRun {
             steps.push(Step::Eof);
         }
         let log = Rc::new(RefCell::new(SockLog::default()));
-        let sock = ScriptSock::new(steps, log.clone());
+        let sock = ScriptSock::new(steps, wp, log.clone());
         let mut fut: Pin<Box<dyn Future<Output = _>>> = Box::pin(svc.call((sock, None)));
         let flag = Arc::new(Flag(AtomicBool::new(true)));
         let waker = Waker::from(flag.clone());
@@ -832,6 +843,9 @@ fn run(line: &str) -> CaseResult {
                     res.tags.push("toolarge-boundary".into());
                 }
             }
+            if end == End::Livelock {
+                res = res.fail("decode-livelock", "Codec::decode kept returning messages without consuming input".into());
+            }
             // generator ground truth / reference apply to the whole-stream meaning of the bytes
             let skip_ref = toolarge_boundary(&stream, &end) && matches!(refo, RefOut::Run(_, ref e, _) if *e != End::Reject(431));
             if !skip_ref {
@@ -863,10 +877,12 @@ fn run(line: &str) -> CaseResult {
         }
         "conn" => {
             let eof = kv(line, "e") == Some("1");
+            let wp = kv(line, "wp") == Some("1");
             let segs = segments(&stream, &spec);
-            let r = run_conn(&segs, eof);
+            let r = run_conn(&segs, eof, wp);
             let mut res = CaseResult { output: r.show(), fail: None, nontrivial: !r.calls.is_empty() || !r.statuses.is_empty(), tags };
             res.tags.push(format!("eof:{}", eof as u8));
+            res.tags.push(format!("write-pending:{}", wp as u8));
             if r.livelock {
                 res = res.fail("conn-livelock", "connection future kept waking itself for 400000 polls".into());
             }
@@ -876,7 +892,7 @@ fn run(line: &str) -> CaseResult {
             if matches!(spec, Spec::All2) {
                 let w = r.show();
                 for k in 1..stream.len() {
-                    let r2 = run_conn(&[stream[..k].to_vec(), stream[k..].to_vec()], eof);
+                    let r2 = run_conn(&[stream[..k].to_vec(), stream[k..].to_vec()], eof, wp);
                     if r2.show() != w {
                         res.output.push_str(&format!(" A2:{}", k));
                         res = res.fail("segmentation-dependent", format!("conn: 2-cut at {} differs: {}", k, first_diff(&r2.show(), &w)));
@@ -1449,7 +1465,7 @@ fn gen(ctx: &Ctx) -> Vec<String> {
     let mut cases = Vec::new();
     let thorough = ctx.tier != Tier::Quick;
     // ---- codec level
-    let n_streams = ctx.budget(420);
+    let n_streams = ctx.budget(340);
     for i in 0..n_streams {
         let big = i % 9 == 0;
         let st = gen_stream(&mut rng, big, false);
@@ -1480,13 +1496,14 @@ fn gen(ctx: &Ctx) -> Vec<String> {
         }
     }
     // ---- conn level
-    let n_conn = ctx.budget(260);
+    let n_conn = ctx.budget(220);
     for _ in 0..n_conn {
         let st = gen_stream(&mut rng, false, true);
         let hx = hex(&st.bytes);
         let len = st.bytes.len();
         let eof = if st.has_reject { rng.chance(1, 4) } else { rng.chance(1, 2) };
-        let pre = |spec: &str| format!("conn s={} e={} cls={} {}", spec, eof as u8, st.cls, hx);
+        let wp = rng.chance(1, 2);
+        let pre = |spec: &str| format!("conn s={} e={} wp={} cls={} {}", spec, eof as u8, wp as u8, st.cls, hx);
         // schedules never deliver the end of one body-carrying request together with later bytes
         // (that overlap is the dispatcher's pipelining logic, properties C02/C03)
         let base: Vec<usize> = st.msg_ends.iter().cloned().filter(|&e| e < len).collect();
